@@ -555,3 +555,4 @@ def twin_vs_real(t, r):
     if len(ft) != len(fr):
         return False
     return all(close(a, b, 1e-9, 0.0) or (isinstance(a, float) and abs(a - b) <= 1e-9 * (1 + abs(a))) for a, b in zip(ft, fr))
+
